@@ -295,22 +295,90 @@ Proof.
   - apply map_ext_in. intros r Hr. symmetry. apply xml_write_row_chk. rewrite forallb_forall in H. auto.
 Qed.
 
-Lemma xml_row_parse : forall r,
-  (forall kv, In kv r -> exists t, snd kv = Some t /\ str_xml (fst kv) = true /\ xml_elem_roundtrip t = Some t) ->
-  all_some (map xml_parse_bind (map bind_g r)) = Some (bound_of r).
+(* parseTerm on the tree node of a decoded term is parseTerm on the decoded term *)
+Lemma parseTerm_tree : forall p, xml_parseTerm_e (tree_of_pterm p) = xml_parseTerm p.
 Proof.
-  induction r as [|[k o] r IH]; intro H; [reflexivity|].
-  destruct (H (k, o) (or_introl eq_refl)) as [t [Ho [Hk Hrt]]]. simpl in Ho, Hk. subst o.
-  cbn [map all_some]. unfold xml_parse_bind at 1.
-  change (fst (bind_g (k, Some t))) with (sax_quoteattr k).
-  change (snd (bind_g (k, Some t))) with (xml_term_elem t).
-  rewrite (xml_read_attr_ok k Hk). unfold xml_elem_roundtrip in Hrt.
-  destruct (xml_decode_term (xml_term_elem t)) as [p|]; [|discriminate]. rewrite Hrt.
-  rewrite IH by (intros; apply H; right; auto). reflexivity.
+  intros [k dt lang text]. destruct k; unfold xml_parseTerm_e, tree_of_pterm, xml_parseTerm; cbn [pk p_dt p_lang p_text pe_tag pe_attrs pe_text].
+  - change (str_eqb t_uri t_literal) with false. change (str_eqb t_uri t_uri) with true. cbv iota.
+    destruct text; reflexivity.
+  - change (str_eqb t_bnode t_literal) with false. change (str_eqb t_bnode t_uri) with false.
+    change (str_eqb t_bnode t_bnode) with true. cbv iota. destruct text; reflexivity.
+  - change (str_eqb t_literal t_literal) with true. cbv iota.
+    destruct dt as [d|]; destruct lang as [l|]; reflexivity.
+Qed.
+
+Definition dbind (kv : str * option term) : option pelem := xml_decode_bind (bind_g kv).
+
+Lemma xml_row_tree : forall r d,
+  NoDup (keys d ++ keys r) ->
+  (forall kv, In kv r -> exists t, snd kv = Some t /\ str_xml (fst kv) = true /\ name_ok (fst kv) = true
+                                   /\ xml_elem_roundtrip t = Some t) ->
+  exists bs, all_some (map xml_decode_bind (map bind_g r)) = Some bs
+             /\ fold_left (fun acc b =>
+                   match acc with
+                   | None => None
+                   | Some d0 =>
+                       if negb (str_eqb (pe_tag b) t_binding) then Some d0
+                       else match lookup a_name (pe_attrs b), pe_children b with
+                            | Some n, child :: _ =>
+                                match py_Variable n, xml_parseTerm_e child with
+                                | Some v, Some t => Some (dict_set v t d0)
+                                | _, _ => None
+                                end
+                            | _, _ => None
+                            end
+                   end) bs (Some d) = Some (d ++ bound_of r).
+Proof.
+  induction r as [|[k o] r IH]; intros d Hnd H.
+  - exists []. split; [reflexivity|]. simpl. now rewrite app_nil_r.
+  - destruct (H (k, o) (or_introl eq_refl)) as [t [Ho [Hk [Hn Hrt]]]]. simpl in Ho, Hk, Hn. subst o.
+    unfold xml_elem_roundtrip in Hrt.
+    destruct (xml_decode_term (xml_term_elem t)) as [p|] eqn:Ep; [|discriminate].
+    simpl in Hnd.
+    assert (Hfresh : ~ In k (keys d)).
+    { apply NoDup_remove_2 in Hnd. intro Hin. apply Hnd. apply in_or_app. auto. }
+    destruct (IH (d ++ [(k, t)])) as [bs [Hbs Hfold]].
+    + rewrite keys_app. simpl. rewrite <- app_assoc. exact Hnd.
+    + intros; apply H; right; auto.
+    + exists (PE t_binding [(a_name, k)] None [tree_of_pterm p] :: bs). split.
+      * cbn [map all_some]. unfold xml_decode_bind at 1.
+        change (fst (bind_g (k, Some t))) with (sax_quoteattr k).
+        change (snd (bind_g (k, Some t))) with (xml_term_elem t).
+        rewrite (xml_read_attr_ok k Hk), Ep. rewrite Hbs. reflexivity.
+      * cbn [fold_left pe_tag pe_attrs pe_children].
+        change (str_eqb t_binding t_binding) with true. cbn [negb].
+        change (lookup a_name [(a_name, k)]) with (Some k). cbv iota.
+        rewrite (py_Variable_ok k Hn), parseTerm_tree, Hrt. rewrite dict_set_fresh by exact Hfresh.
+        rewrite Hfold. cbn [bound_of flat_map snd fst app]. rewrite <- app_assoc. reflexivity.
+Qed.
+
+Lemma filter_all : forall A (f : A -> bool) l, (forall x, In x l -> f x = true) -> filter f l = l.
+Proof.
+  induction l as [|x r IH]; intro H; [reflexivity|]. cbn [filter]. rewrite (H x) by (left; auto).
+  rewrite IH; auto. intros; apply H; right; auto.
+Qed.
+
+Lemma xml_rows_tree : forall rows,
+  (forall r, In r rows -> NoDup (keys r)) ->
+  (forall r, In r rows -> forall kv, In kv r ->
+     exists t, snd kv = Some t /\ str_xml (fst kv) = true /\ name_ok (fst kv) = true /\ xml_elem_roundtrip t = Some t) ->
+  exists bss, all_some (map (fun r => all_some (map xml_decode_bind r)) (map (map bind_g) rows)) = Some bss
+              /\ all_some (map xml_result_row (map (fun r => PE t_result [] None r) bss)) = Some (map bound_of rows).
+Proof.
+  induction rows as [|r rs IH]; intros Hnd H.
+  - exists []. split; reflexivity.
+  - destruct (xml_row_tree r []) as [bs [Hbs Hfold]].
+    + simpl. apply Hnd. left; auto.
+    + apply H. left; auto.
+    + destruct IH as [bss [Hbss Hrows]]; [intros; apply Hnd; right; auto|intros r' Hr'; apply H; right; auto|].
+      exists (bs :: bss). split.
+      * cbn [map all_some]. rewrite Hbs, Hbss. reflexivity.
+      * cbn [map all_some]. unfold xml_result_row at 1. cbn [pe_children]. rewrite Hfold. cbn [app].
+        rewrite Hrows. reflexivity.
 Qed.
 
 Lemma xml_ask : forall b vars rows,
-  match xml_serialize (Some b) vars rows with WOk d => xml_parse d | WRefuse => ORefused | WFail => OErr end = OAsk b.
+  match xml_serialize (Some b) vars rows with WOk d => xml_parse_tree d | WRefuse => ORefused | WFail => OErr end = OAsk b.
 Proof. intros [|] vars rows; reflexivity. Qed.
 
 Lemma existsb_false : forall A (f : A -> bool) l, existsb f l = false -> forall x, In x l -> f x = false.
@@ -325,7 +393,8 @@ Lemma xml_select : forall c, wf c = true -> c_fmt c = FXml -> c_ask c = None ->
 Proof.
   intros c Hwf Hf Ha. unfold model_obs. rewrite Hf, Ha.
   unfold wf in Hwf. rewrite Hf in Hwf. apply andb_true_iff in Hwf. destruct Hwf as [Hwf Hsome].
-  apply andb_true_iff in Hwf. destruct Hwf as [Hnd Hrows].
+  apply andb_true_iff in Hwf. destruct Hwf as [Hnd Hrows]. apply andb_true_iff in Hnd. destruct Hnd as [Hnd Hnm].
+  pose proof Hrows as Hrows0.
   assert (Hterm : forall r, In r (c_rows c) -> forall k t, In (k, Some t) r -> term_wf t = true).
   { intros r Hr k t Hin. rewrite forallb_forall in Hrows. specialize (Hrows r Hr). unfold row_wf in Hrows.
     apply andb_true_iff in Hrows. destruct Hrows as [_ Ht]. rewrite forallb_forall in Ht.
@@ -337,17 +406,43 @@ Proof.
     apply written_strings_ok. eapply Hterm; eauto. }
   rewrite Hexp. destruct (xml_expressible c) eqn:Ex; [|reflexivity].
   unfold xml_expressible in Ex. apply andb_true_iff in Ex. destruct Ex as [Hv Hb].
-  unfold xml_parse.
+  assert (Hnames : forallb name_ok (c_vars c) = true) by exact Hnm.
+  destruct (xml_rows_tree (c_rows c)) as [bss [Hbss Hrt]].
+  { intros r Hr. rewrite forallb_forall in Hrows0. specialize (Hrows0 r Hr).
+    destruct (row_names_ok (c_vars c) r Hnames Hrows0) as [H1 _]. exact H1. }
+  { intros r Hr [k o] Hin.
+    rewrite forallb_forall in Hsome. specialize (Hsome r Hr). unfold all_bound in Hsome. rewrite forallb_forall in Hsome.
+    specialize (Hsome (k, o) Hin). cbn [snd] in Hsome. destruct o as [t|]; [|discriminate].
+    rewrite forallb_forall in Hb. specialize (Hb r Hr). rewrite forallb_forall in Hb. specialize (Hb (k, Some t) Hin).
+    cbn [fst snd] in Hb. apply andb_true_iff in Hb. destruct Hb as [Hk Hs].
+    exists t. repeat split; auto.
+    - rewrite forallb_forall in Hrows0. specialize (Hrows0 r Hr).
+      destruct (row_names_ok (c_vars c) r Hnames Hrows0) as [_ [H2 _]]. rewrite forallb_forall in H2. apply H2.
+      unfold keys. apply in_map_iff. exists (k, Some t). auto.
+    - apply xml_term_ok; auto. eapply Hterm; eauto. }
+  unfold xml_parse_tree, xml_decode_doc.
   rewrite (map_map sax_quoteattr xml_read_attr). rewrite (all_some_map_id (fun x => xml_read_attr (sax_quoteattr x))).
   2:{ intros v Hin. apply xml_read_attr_ok. rewrite forallb_forall in Hv. apply Hv. exact Hin. }
-  rewrite (map_map (map bind_g) (fun r => all_some (map xml_parse_bind r))).
-  rewrite (all_some_map (fun r => all_some (map xml_parse_bind (map bind_g r))) bound_of); [reflexivity|].
-  intros r Hr. apply xml_row_parse. intros [k o] Hin.
-  rewrite forallb_forall in Hsome. specialize (Hsome r Hr). unfold all_bound in Hsome. rewrite forallb_forall in Hsome.
-  specialize (Hsome (k, o) Hin). cbn [snd] in Hsome. destruct o as [t|]; [|discriminate].
-  rewrite forallb_forall in Hb. specialize (Hb r Hr). rewrite forallb_forall in Hb. specialize (Hb (k, Some t) Hin).
-  cbn [fst snd] in Hb. apply andb_true_iff in Hb. destruct Hb as [Hk Hs].
-  exists t. repeat split; auto. apply xml_term_ok; auto. eapply Hterm; eauto.
+  rewrite Hbss. unfold xml_reader. cbn [pe_children].
+  change (pe_find t_boolean _) with (@None pelem).
+  change (pe_find t_results [PE t_head [] None (map (fun v => PE t_variable [(a_name, v)] None []) (c_vars c));
+                             PE t_results [] None (map (fun r => PE t_result [] None r) bss)])
+    with (Some (PE t_results [] None (map (fun r => PE t_result [] None r) bss))).
+  cbn [pe_children]. unfold pe_findall at 1.
+  rewrite (filter_all _ (fun e => str_eqb (pe_tag e) t_result)).
+  2:{ intros x Hx. apply in_map_iff in Hx. destruct Hx as [r [E _]]. subst x. reflexivity. }
+  rewrite Hrt.
+  change (pe_findall t_head [PE t_head [] None (map (fun v => PE t_variable [(a_name, v)] None []) (c_vars c));
+                             PE t_results [] None (map (fun r => PE t_result [] None r) bss)])
+    with [PE t_head [] None (map (fun v => PE t_variable [(a_name, v)] None []) (c_vars c))].
+  cbn [flat_map pe_children]. rewrite app_nil_r. unfold pe_findall.
+  rewrite (filter_all _ (fun e => str_eqb (pe_tag e) t_variable)).
+  2:{ intros x Hx. apply in_map_iff in Hx. destruct Hx as [v [E _]]. subst x. reflexivity. }
+  rewrite map_map. cbn [pe_attrs].
+  rewrite (all_some_map_id (fun x => match lookup a_name [(a_name, x)] with Some n => py_Variable n | None => None end));
+    [reflexivity|].
+  intros v Hin. change (lookup a_name [(a_name, v)]) with (Some v). apply py_Variable_ok.
+  rewrite forallb_forall in Hnames. auto.
 Qed.
 
 Lemma xml_ok : forall c, wf c = true -> c_fmt c = FXml -> spec_ok c (model_obs c) = true.
